@@ -46,14 +46,31 @@ var syms = func() map[string]symDef {
 type rcase struct {
 	Sym     string // ean13 ean8 upca upce itf code39 code93 code128 codabar
 	Content []byte
-	Q       string // quoted content, for the reader of the replay file
-	W, H    int    // requested size, literal
-	Margin  int    // -1: no MARGIN hint (writer default)
-	CodeSet string `json:",omitempty"` // Code 128 FORCE_CODE_SET
-	Reader  string // own | ext | ean13 | multi | multi+own | multi+all | startend
-	Path    string // image | row
-	Reject  string `json:",omitempty"` // label of the rejection class that generated the case
-	big     bool   // member of an exhaustive digit sweep: distinct-counting by class
+	Q       string     // quoted content, for the reader of the replay file
+	W, H    int        // requested size, literal
+	Margin  int        // -1: no MARGIN hint (writer default)
+	CodeSet string     `json:",omitempty"` // Code 128 FORCE_CODE_SET
+	Reader  string     // own | ext | ean13 | multi | multi+own | multi+all | startend
+	Path    string     // image | row
+	Reject  string     `json:",omitempty"` // label of the rejection class that generated the case
+	big     bool       // member of an exhaustive digit sweep: distinct-counting by class
+	inst    *instances // non-nil: writer and reader objects are REUSED across the cases of a sequence
+	Seq     []string   `json:",omitempty"` // reuse sub-space: the contents that went through the same objects before this one
+}
+
+// instances caches one writer per symbology and one reader per (symbology, reader kind): the
+// reuse sub-space drives a whole sequence of contents through the same objects, so state left
+// behind by an earlier call (buffers, counters, row caches) is visible in a later result.
+type instances struct {
+	w map[string]gozxing.Writer
+	r map[string]gozxing.Reader
+}
+
+func (in *instances) writer(sd symDef) gozxing.Writer {
+	if in.w[sd.name] == nil {
+		in.w[sd.name] = sd.mk()
+	}
+	return in.w[sd.name]
 }
 
 func (rc *rcase) finish() *rcase {
@@ -347,6 +364,19 @@ func makeReader(rc *rcase) (gozxing.Reader, map[gozxing.DecodeHintType]interface
 	panic("unknown reader kind " + rc.Reader)
 }
 
+// decoyImage: stripes that start like many symbologies but complete none
+var decoyImage = func() *gozxing.BitMatrix {
+	m, _ := gozxing.NewBitMatrix(140, 3)
+	for x := 10; x < 130; x++ {
+		if (x/2+x/7)%3 == 0 {
+			for y := 0; y < 3; y++ {
+				m.Set(x, y)
+			}
+		}
+	}
+	return m
+}()
+
 func errKind(err error) string {
 	var nf gozxing.NotFoundException
 	var ce gozxing.ChecksumException
@@ -457,7 +487,11 @@ func exec(l *mc.Local, rc *rcase) {
 	}
 	var m *gozxing.BitMatrix
 	var err error
-	pm, site := mc.Guard(func() { m, err = sd.mk().Encode(content, sd.format, rc.W, rc.H, hints) })
+	wr := sd.mk
+	if rc.inst != nil {
+		wr = func() gozxing.Writer { return rc.inst.writer(sd) }
+	}
+	pm, site := mc.Guard(func() { m, err = wr().Encode(content, sd.format, rc.W, rc.H, hints) })
 	l.Count("evaluations", 1)
 	if pm != "" {
 		chk.Violation("C03/panic/"+site, fmt.Sprintf("panic %q: %s", pm, describe(rc)), rc)
@@ -489,6 +523,19 @@ func exec(l *mc.Local, rc *rcase) {
 	}
 
 	rd, dh := makeReader(rc)
+	if rc.inst != nil {
+		k := rc.Sym + "/" + rc.Reader + fmt.Sprint(rc.Sym == "code39" && !allNative39(content))
+		if rc.inst.r[k] == nil {
+			rc.inst.r[k] = rd
+		}
+		rd = rc.inst.r[k]
+		// a decoy: the same reader object first fails on an image that is not its symbol
+		mc.Guard(func() {
+			if bmp, e := gozxing.NewBinaryBitmapFromImage(decoyImage); e == nil {
+				rd.Decode(bmp, dh)
+			}
+		})
+	}
 	var res *gozxing.Result
 	var rerr error
 	pm, site = mc.Guard(func() {
